@@ -550,20 +550,26 @@ def tid(transition):
 
 # ----------------------------------------------------------------------------- materialisers
 
+def _f(x):
+    """an equal but distinct str object: names are values, every API call gets its own copy (nothing may compare them with
+    `is`)"""
+    return None if x is None else (x + '.')[:-1]
+
+
 def _state_obj(model, s, with_old=True):
     kw = dict(on_entry=entry_code(s), on_exit=exit_code(s))
     if s.kind == 'basic':
-        o = model.BasicState(s.name, **kw)
+        o = model.BasicState(_f(s.name), **kw)
     elif s.kind == 'compound':
-        o = model.CompoundState(s.name, initial=s.initial, **kw)
+        o = model.CompoundState(_f(s.name), initial=_f(s.initial), **kw)
     elif s.kind == 'orthogonal':
-        o = model.OrthogonalState(s.name, **kw)
+        o = model.OrthogonalState(_f(s.name), **kw)
     elif s.kind == 'final':
-        o = model.FinalState(s.name, **kw)
+        o = model.FinalState(_f(s.name), **kw)
     elif s.kind == 'shallow':
-        o = model.ShallowHistoryState(s.name, memory=s.memory, **kw)
+        o = model.ShallowHistoryState(_f(s.name), memory=_f(s.memory), **kw)
     else:
-        o = model.DeepHistoryState(s.name, memory=s.memory, **kw)
+        o = model.DeepHistoryState(_f(s.name), memory=_f(s.memory), **kw)
     o.preconditions.extend(cond_code(j, 'pre', False, with_old, s.name) for j in s.pre)
     o.postconditions.extend(cond_code(j, 'post', False, with_old, s.name) for j in s.post)
     o.invariants.extend(cond_code(j, 'inv', False, with_old, s.name) for j in s.inv)
@@ -573,7 +579,7 @@ def _state_obj(model, s, with_old=True):
 
 
 def _trans_obj(model, t, with_old=True):
-    o = model.Transition(t.src, t.tgt, event=t.event, guard=guard_code(t), action=action_code(t),
+    o = model.Transition(_f(t.src), _f(t.tgt), event=_f(t.event), guard=guard_code(t), action=action_code(t),
                          priority=t.prio)
     o.preconditions.extend(cond_code(j, 'pre', True, with_old) for j in t.pre)
     o.postconditions.extend(cond_code(j, 'post', True, with_old) for j in t.post)
@@ -598,7 +604,7 @@ def build_api(sp, order=None, name='gen', preamble=None):
         n = ready[order.choice(len(ready))] if order is not None else ready[0]
         pending.remove(n)
         added.add(n)
-        sc.add_state(_state_obj(model, sp.states[n]), sp.states[n].parent)
+        sc.add_state(_state_obj(model, sp.states[n]), _f(sp.states[n].parent))
     ts = list(sp.trans)
     if order is not None:
         ts = order.shuffle(ts)
@@ -718,7 +724,7 @@ def build_via_edits(sp, st, name='gen', preamble=None):
             o.memory = None
         tp = moved.get(n, parent)
         tp = alias.get(tp, tp) if tp is not None and tp in alias and tp in sp.states else tp
-        sc.add_state(o, tp)
+        sc.add_state(o, _f(tp))
     for t in sp.trans:
         o = _trans_obj(model, t)
         o._source = alias.get(t.src, t.src)
@@ -739,9 +745,9 @@ def build_via_edits(sp, st, name='gen', preamble=None):
         sc.ancestors_for(m)
     # now the edits
     for n in st.shuffle(sorted(moved)):
-        sc.move_state(alias.get(n, n), alias.get(sp.states[n].parent, sp.states[n].parent))
+        sc.move_state(_f(alias.get(n, n)), _f(alias.get(sp.states[n].parent, sp.states[n].parent)))
     for n in st.shuffle(sorted(alias)):
-        sc.rename_state(alias[n], n)
+        sc.rename_state(_f(alias[n]), _f(n))
     for n, s in sp.states.items():
         o = sc.state_for(n)
         if s.initial is not None:
